@@ -200,6 +200,13 @@ HARNESSES[-1]["decoder"] = None
 LXH("lx_double_quoted_literal_direct", ["C01", "C02", "C03", "C04", "C06", "C07", "C10", "C11", "C16"], "quick", "closing quote + <= 2 code points of suffix; payload handed over symbolic", ["Lexer::lex_double_quoted_literal", "Lexer::resolve_string_literal_ending", "Lexer::update_last_token"], 300, stubs=HEXS, fixed='"', contexts=["quote"], mem=8)
 LXH("lx_str_expr_start", ["C01", "C02", "C03", "C04", "C06", "C10"], "quick", "'\"' + <= 1 code point", ["Lexer::lex_string_expression_start"], 300, fixed='"', contexts=["default"], mem=8)
 DLF = ["Lexer::lex_datalines", "Cursor::advance_by"]
+for _nm, _bound, _fx, _tmo in (("lx_datalines_ascii_vt_n2", "'cArds' + a vertical tab (whitespace that is not ASCII whitespace, constant) + 1 ASCII character", "cArds\x0b", 600),
+                              ("lx_datalines_ascii_semi_n2", "'cArds;' (constant) + 1 ASCII character of data / terminator", "cArds;", 600),
+                              ("lx_datalines_ascii_semi_n3", "'cArds;' (constant) + 2 ASCII characters", "cArds;", 600),
+                              ("lx_datalines_ascii_semi_n4", "'cArds;' (constant) + 3 ASCII characters", "cArds;", 900),
+                              ("lx_datalines4_ascii_semi_n3", "'cArds4;' (constant) + 2 ASCII characters (';;;;' terminator cannot complete)", "cArds4;", 600),
+                              ("lx_datalines4_ascii_semi_n6", "'cArds4;' (constant) + 5 ASCII characters (data, ';;;;' terminator)", "cArds4;", 1200)):
+    LXH(_nm, ["C01", "C02", "C03", "C04", "C06", "C09", "C10", "C11", "C15"], "quick", _bound + "; all byte positions constant; look-behind none / ';' / other, optional hidden token; non-zero base offset", DLF, _tmo, fixed=_fx, contexts=["default"], mem=10)
 LXH("lx_datalines_ascii_n1", ["C01", "C02", "C03", "C04", "C06", "C09", "C10", "C11", "C15", "C17"], "quick", "'cArds' in the constant prefix + exactly 1 ASCII character (all byte positions constant); look-behind none / ';' / other, optional hidden token; non-zero base offset", DLF, 600, fixed="cArds", contexts=["default"], mem=10)
 TDC = ["every sub-lexer of the dispatcher (quotes, comments, blanks, macro variable / call / comment, the mode's text scanner) -> recording stand-ins; lex_macro_call's outcome chosen by the harness; the scanners have their own harnesses"]
 for nm, fn, ctx in (("semi_text", "dispatch_macro_semi_term_text_expr", "semi_text"), ("stat_opts", "dispatch_macro_stat_opts_text_expr", "stat_opts"), ("arg_value", "dispatch_macro_call_arg_value", "arg_value"), ("str_call", "dispatch_macro_str_quoted_expr", "str_call")):
@@ -267,7 +274,7 @@ COST = {
     "lx_default_classifier": 90, "lx_double_quoted_literal_direct": 43, "lx_eval_dispatch_ops": 104, "lx_eval_string_lite_n3": 450, "lx_eval_percent_op": 143, "lx_identifier_k4": 98,
     "lx_macro_call_k3": 99, "lx_macro_def_args": 59, "lx_macro_do_arms": 146, "lx_macro_identifier_k4": 100, "lx_macro_local_global_arms": 36,
     "lx_maybe_arg_assign": 55, "lx_maybe_tail_arg": 21, "lx_name_expr_arms": 69, "lx_semi_text_classifier": 172, "lx_stat_opts_classifier": 168,
-    "lx_str_call_classifier": 182, "lx_datalines_ascii_n1": 40, "lx_str_expr_start": 29, "lx_symbols_table": 93, "lx_unterminated_str_direct": 39,
+    "lx_str_call_classifier": 182, "lx_datalines_ascii_n1": 40, "lx_datalines_ascii_vt_n2": 30, "lx_datalines_ascii_semi_n2": 30, "lx_datalines_ascii_semi_n3": 59, "lx_datalines_ascii_semi_n4": 63, "lx_datalines4_ascii_semi_n3": 96, "lx_datalines4_ascii_semi_n6": 138, "lx_str_expr_start": 29, "lx_symbols_table": 93, "lx_unterminated_str_direct": 39,
 }
 
 
@@ -305,7 +312,7 @@ PRIMARY = [
     ("lx_macro_call_k3", ["C03", "C06", "C13", "C09", "C01"]), ("lx_symbols_table", ["C11", "C06"]), ("lx_char_format_k5", ["C11", "C03", "C06"]),
     ("lx_default_classifier", ["C11", "C01", "C08", "C10"]), ("lx_semi_text_classifier", ["C04", "C01", "C13", "C14"]), ("lx_stat_opts_classifier", ["C04", "C06", "C01", "C14"]),
     ("lx_arg_value_classifier", ["C13", "C04", "C01"]), ("lx_str_call_classifier", ["C13", "C04", "C01"]),
-    ("lx_macro_do_arms", ["C14", "C01", "C15", "C09"]), ("lx_datalines_ascii_n1", ["C10", "C11", "C17", "C15", "C06", "C09"]), ("lx_macro_local_global_arms", ["C14", "C01"]), ("lx_name_expr_arms", ["C14", "C09", "C01"]),
+    ("lx_macro_do_arms", ["C14", "C01", "C15", "C09"]), ("lx_datalines_ascii_n1", ["C10", "C11", "C17", "C15", "C06", "C09"]), ("lx_datalines_ascii_", ["C10", "C11", "C06"]), ("lx_datalines4_ascii_", ["C10", "C11", "C06"]), ("lx_macro_local_global_arms", ["C14", "C01"]), ("lx_name_expr_arms", ["C14", "C09", "C01"]),
     ("mac_", None), ("sep_", None), ("flags_", None), ("num_", None),
 ]
 
